@@ -1,0 +1,122 @@
+//go:build verif
+
+// Contracts for package client, checked by /verif/gvc (comment-only file,
+// compiled only under the build tag "verif").
+package client
+
+// ---- ReconnectClient -----------------------------------------------------------
+// subscribeDone is created by Subscribe's initialisation and closed when Subscribe
+// returns; it is never sent on.
+//@ flagchan ReconnectClient.subscribeDone
+// closed and cancel are only touched under mu. Once the client is closed, a context
+// that has been installed has been cancelled: whichever of initDone and Close comes
+// second under the lock cancels it. subscribeDone is written by Subscribe's own
+// goroutine (under mu) and read by Close under mu and by Subscribe's goroutine when it
+// returns: it is not declared protected (one Subscribe at a time is assumed).
+// cancelled: clients whose currently installed context has been cancelled (ghost).
+//@ ghost cancelled set[ref]
+//@ monitor ReconnectClient.mu protects cancel, closed invariant RcInv
+//@ pred RcInv(p *ReconnectClient) := p.closed && p.cancel != nil ==> has(cancelled, p)
+
+// attempts / disconnects / resets: calls of the wrapped Subscribe and of the two callbacks.
+//@ ghost attempts int
+//@ ghost disconnects int
+//@ ghost resets int
+//@ func iface Client.Subscribe (ctx, q, clientType)
+//@   effect attempts := attempts + 1
+//@ func iface Client.Close
+//@ func iface Client.Impl
+//@ func field ReconnectClient.disconnect
+//@   effect disconnects := disconnects + 1
+//@ func field ReconnectClient.reset
+//@   effect resets := resets + 1
+//@ func field ReconnectClient.cancel
+//@   note callbacks and cancel functions are assumed not to touch the client
+
+// initDone installs a fresh completion channel and a cancellable context; if the
+// client was already closed the context is cancelled at once.
+//@ func (*ReconnectClient).initDone
+//@   props C18 C12
+//@   locks p
+//@   requires p != nil && ctx != nil
+//@   modifies ghost cancelled, p.subscribeDone
+//@   set at call context.WithCancel#0: cancelled := minus1(cancelled, p)
+//@   set at call field ReconnectClient.cancel#0: cancelled := union1(cancelled, p)
+//@   ensures res0 != nil && res1 != nil
+//@   ensures [closed-before-init-cancels-here C18] old(p.closed) ==> has(cancelled, p)
+//@   ensures [fresh-completion-signal C18] p.subscribeDone != nil && fresh(p.subscribeDone) && !closed(p.subscribeDone)
+//@ func result (*ReconnectClient).initDone
+//@   note the returned function closes the completion channel (contract of initDone$1)
+//@ func (*ReconnectClient).initDone$1
+//@   props C18 C12
+//@   requires p != nil && p.subscribeDone != nil && !closed(p.subscribeDone)
+//@   modifies closed(p.subscribeDone)
+//@   ensures closed(p.subscribeDone)
+
+// The retry loop: the wrapped Subscribe is repeated; after EVERY attempt - failed or
+// clean - the disconnect callback runs once and cancellation is checked before
+// sleeping; the reset callback runs once before each retry. Subscribe returns only
+// for a non-streaming query or once the context is cancelled.
+//@ func (*ReconnectClient).Subscribe
+//@   props C18 C12
+//@   requires p != nil && ctx != nil && p.Client != nil && p.backoff != nil && p.disconnect != nil && p.reset != nil
+//@   modifies ghost attempts, ghost disconnects, ghost resets, ghost cancelled, p.subscribeDone, closed(p.subscribeDone)
+//@   invariant 0: attempts - old(attempts) == disconnects - old(disconnects) && attempts - old(attempts) == resets - old(resets) && ctx != nil
+//@   assert at call time.Sleep#0: [cancellation-checked-after-every-attempt C18] !closed(ctxdone(ctx)) && disconnects - old(disconnects) == attempts - old(attempts)
+//@   assert at call field ReconnectClient.reset#0: [reset-right-before-the-retry C18] resets - old(resets) == attempts - old(attempts) - 1
+//@   ensures [not-for-once-queries C18] q.Type != Stream && q.Type != Poll ==> res0 != nil && attempts == old(attempts)
+//@   ensures [disconnect-once-per-ended-attempt C18] disconnects - old(disconnects) == attempts - old(attempts)
+//@   ensures [reset-before-each-retry-only C18] q.Type == Stream || q.Type == Poll ==> resets - old(resets) == attempts - old(attempts) - 1
+
+// Close cancels the installed context (if any), marks the client closed - both under
+// the lock - closes the wrapped client and then waits, on every path, for a running
+// Subscribe to return.
+//@ func (*ReconnectClient).Close
+//@   props C18 C12
+//@   locks p
+//@   requires p != nil && p.Client != nil
+//@   modifies ghost cancelled
+//@   ensures [waits-for-subscribe-to-return C18] subscribeDone != nil ==> closed(subscribeDone)
+//@ func (*ReconnectClient).Close$1
+//@   props C18 C12
+//@   locks p
+//@   requires p != nil
+//@   modifies ghost cancelled
+//@   flagresult
+//@   set at call field ReconnectClient.cancel#0: cancelled := union1(cancelled, p)
+//@   ensures [marked-closed-under-the-lock C18] p.closed && res0 == p.subscribeDone
+
+// ---- BaseClient -------------------------------------------------------------------
+//@ monitor BaseClient.mu protects closed, clientImpl
+// recvSinceCheck: messages received since the close flag was last read.
+//@ ghost recvSinceCheck int
+//@ func iface Impl.Recv
+//@   effect recvSinceCheck := recvSinceCheck + 1
+//@   ensures !sentinel(res0) || res0 == ErrStopReading || res0 == ErrClientInit
+//@ func iface Impl.Close
+//@ func iface Impl.Poll
+
+// The receive loop reads the close flag after every received message, so at most one
+// further message is processed after Close; it ends with nil on EOF / ErrStopReading /
+// the close flag, and with Recv's error (after closing the implementation) otherwise.
+//@ func (*BaseClient).run
+//@   props C18 C12
+//@   locks c
+//@   requires c != nil && impl != nil && recvSinceCheck == 0
+//@   modifies ghost recvSinceCheck
+//@   invariant 0: recvSinceCheck == 0
+//@   set at call (*sync.RWMutex).RUnlock#0: recvSinceCheck := 0
+//@   assert at call (*sync.RWMutex).RLock#0: [flag-read-after-each-message C18] recvSinceCheck == 1
+
+//@ func (*BaseClient).Close
+//@   props C18 C12
+//@   locks c
+//@   requires c != nil
+//@   ensures [uninitialised-refused C18] old(c.clientImpl) == nil ==> res0 == ErrClientInit && c.closed == old(c.closed)
+//@   ensures [marked-closed C18] old(c.clientImpl) != nil ==> c.closed
+
+//@ func (*BaseClient).Impl
+//@   props C18 C12
+//@   locks c
+//@   requires c != nil
+//@   ensures res1 == nil <==> res0 != nil
